@@ -142,7 +142,12 @@ def run_framework(spec):
     hh.AlphaFin = float(spec['alpha2'])
     tf.TaxRate = float(spec['theta'])
     gov = c['TRE'] if model == 'PC' else c['GOV']
-    gov.SetExogenous('DEM_GOOD', [float(g) for g in spec['G']])
+    by_code = bool(spec.get('exo_by_code'))
+    if by_code:
+        # the model-level route, keyed by the sector's code (single country: the full code is the short code)
+        mod.AddExogenous(gov.Code, 'DEM_GOOD', [float(g) for g in spec['G']])
+    else:
+        gov.SetExogenous('DEM_GOOD', [float(g) for g in spec['G']])
     v0 = float(spec['V0'])
     if v0 != 0.0 or model != 'SIM' or book_start:
         hh.AddInitialCondition('F', v0)
@@ -153,7 +158,10 @@ def run_framework(spec):
         hh.SetEquationRightHandSide('L0', spec['lambda0'])
         hh.SetEquationRightHandSide('L1', spec['lambda1'])
         hh.SetEquationRightHandSide('L2', spec['lambda2'])
-        c['DEP'].SetExogenous('r', [float(x) for x in spec['r']])
+        if by_code:
+            mod.AddExogenous('DEP', 'r', [float(x) for x in spec['r']])
+        else:
+            c['DEP'].SetExogenous('r', [float(x) for x in spec['r']])
         hh.AddInitialCondition('DEM_DEP', float(spec['B0']))
     mod.MaxTime = spec['T']
     mod.EquationSolver.ParameterErrorTolerance = 1e-9
@@ -192,6 +200,7 @@ def run_framework(spec):
 def fw_case(draw):
     spec = draw(params(draw(st.sampled_from(['PC', 'SIM', 'SIMEX1']))))
     spec['book_start'] = draw(st.sampled_from([False, False, True]))
+    spec['exo_by_code'] = draw(st.booleans())
     return spec
 
 
